@@ -32,6 +32,10 @@ impl LoggedInUser { pub fn new(_t: Token, _id: Arc<str>, _role: Arc<str>) -> Sel
 impl AsRef<str> for Token { fn as_ref(&self) -> &str { unimplemented!() } }
 impl From<ApiAuthError> for Error { fn from(_e: ApiAuthError) -> Self { unimplemented!() } }
 pub fn vx_str_ne(_a: &String, _b: &str) -> bool { unimplemented!() }
+pub struct Session { pub user_id: Arc<str>, pub secrets: SessionSecret }
+impl SessionCache { pub fn decode(&self, _t: Token, _k: &CryptState, _add: bool) -> Result<Session, ApiAuthError> { unimplemented!() } }
+pub mod httpclient { pub fn get_bearer_token(_r: &super::HyperRequest) -> Option<super::Token> { unimplemented!() } }
+impl AuthInfo { pub fn user(_id: Arc<str>, _r: Arc<Role>) -> Self { unimplemented!() } }
 pub fn vx_arc_str(_s: String) -> Arc<str> { unimplemented!() }
 '''
 
@@ -105,6 +109,17 @@ pub broadcast proof fn axiom_str_key_value<V>(m: Map<String, V>, k: &str, s: Str
     requires s@ == k@
     ensures #[trigger] maps_borrowed_key_to_value(m, k, v) == (#[trigger] m.contains_key(s) && m[s] == v) {}
 
+#[verifier::external_type_specification] pub struct ExSession(Session);
+pub uninterp spec fn bearer_of(r: HyperRequest) -> Option<Token>;
+pub assume_specification [httpclient::get_bearer_token] (r: &HyperRequest) -> (t: Option<Token>) ensures t == bearer_of(*r);
+/// the token is genuine for this session under this key: it base64-decodes, decrypts under the key and deserialises to the session
+/// (contract of LoginSessionCache::decode, verified on the real text in unit c20_session, cache hits included)
+pub uninterp spec fn genuine_session(t: Token, k: CryptState, s: Session) -> bool;
+pub assume_specification [SessionCache::decode] (c: &SessionCache, t: Token, k: &CryptState, add: bool) -> (r: Result<Session, ApiAuthError>)
+    ensures r is Ok ==> genuine_session(t, *k, r->Ok_0);
+pub uninterp spec fn auth_user(id: Arc<str>, role: Arc<Role>) -> AuthInfo;
+pub assume_specification [AuthInfo::user] (id: Arc<str>, role: Arc<Role>) -> (a: AuthInfo) ensures a == auth_user(id, role);
+
 // ---- the statement ----
 /// the double hash krill stores: scrypt(scrypt(password, weak salt of the user name), the user's salt), hex
 pub open spec fn stored_form(user_norm: Seq<char>, password_norm: Seq<char>, salt_hex: Seq<char>) -> Seq<char> {
@@ -118,7 +133,7 @@ def build():
     prelude.hashmap(U)
     prelude.strings(U)
     prelude.string_eq(U)
-    for t in ['HyperRequest', 'Role', 'RoleMap', 'SessionCache', 'CryptState', 'LoggedInUser', 'MyHandle', 'Duration']:
+    for t in ['AuthInfo', 'HyperRequest', 'Role', 'RoleMap', 'SessionCache', 'CryptState', 'LoggedInUser', 'MyHandle', 'Duration']:
         U.opaque(t, '')
     U.opaque('Token', 'Clone')
     U.outside(OUTSIDE)
@@ -150,6 +165,20 @@ def build():
                         && may_login(*role_named(*self.roles, arc_view(self.users@[auth_of(*request)->Some_0.username].role))->Some_0)'''),
                  ('session_is_for_that_user_and_role', '''r is Ok ==> exists |id: Arc<str>| arc_view(id) == nfkc_trim(auth_of(*request)->Some_0.username@)
                         && r->Ok_0 == logged_in(session_for(arc_view(id), self.users@[auth_of(*request)->Some_0.username].role), id, self.users@[auth_of(*request)->Some_0.username].role)'''),
+             ]),
+        U.fn(CF, 'AuthProvider', 'auth_from_session',
+             closures={0: {'header': '|role: Arc<Role>| -> (o: AuthInfo)', 'ensures': 'o == auth_user(session.user_id, role)'},
+                       1: {'header': '|| -> (o: ApiAuthError)', 'ensures': 'true'}},
+             ensures=[('identity_and_role_are_those_of_the_session', '''r is Ok ==> role_named(*self.roles, arc_view(session.secrets.role)) is Some
+                        && r->Ok_0 == auth_user(session.user_id, role_named(*self.roles, arc_view(session.secrets.role))->Some_0)'''),
+                      ('unknown_role_refused', 'role_named(*self.roles, arc_view(session.secrets.role)) is None ==> r is Err')]),
+        U.fn(CF, 'AuthProvider', 'authenticate', erase_async=True,
+             ensures=[
+                 ('identity_only_from_a_genuine_session_token', '''r is Ok && r->Ok_0 is Some ==> bearer_of(*request) is Some
+                        && exists |s: Session| genuine_session(bearer_of(*request)->Some_0, self.session_key, s)
+                            && role_named(*self.roles, arc_view(s.secrets.role)) is Some
+                            && r->Ok_0->Some_0.0 == auth_user(s.user_id, role_named(*self.roles, arc_view(s.secrets.role))->Some_0)'''),
+                 ('no_token_is_nobody', 'bearer_of(*request) is None ==> r is Ok && r->Ok_0 is None'),
              ]),
     ])
     return U
